@@ -56,6 +56,14 @@ Theorem C07_wire_exact : forall N fill_ok write_ok reqs,
   wire_list n ≡ₚ due fill_ok write_ok reqs.
 Proof. exact pipeline_wire_exact. Qed.
 
+(* ... and the error stream: the request errors logged by the drain are exactly the requests that did not
+   become a frame (error attached, Fill failed, or the write failed), each exactly once *)
+Theorem C07_errors_exact : forall N fill_ok write_ok reqs,
+  NoDup (fst <$> reqs) -> forall cap n,
+  reachable (beh N fill_ok write_ok) (init N cap reqs) n -> cancelled n = false -> quiescent n ->
+  err_list n ≡ₚ errdue fill_ok write_ok reqs.
+Proof. exact pipeline_errors_exact. Qed.
+
 (* the goroutine structure of the current sources (Gen/Skeletons.v, regenerated on every run) is the
    one the behaviours of Model/Pipeline.v were written against (Model/PipelineShape.v) *)
 Theorem C07_shape : shape_ok = true.
@@ -86,4 +94,5 @@ Print Assumptions C07_fates.
 Print Assumptions C07_done_after_last_write.
 Print Assumptions C07_terminal.
 Print Assumptions C07_wire_exact.
+Print Assumptions C07_errors_exact.
 Print Assumptions C07_shape.
